@@ -922,9 +922,26 @@ def _contiguity_form(fi, conj):
     return None
 
 
+def _single_subgrader_form(fi, conj):
+    """The single-subgrader requirement written against another name for the subgrader (loop variable, local): it must hold
+    whenever there is one subgrader that is not a ListGrader -- any further condition on the same path narrows the rule."""
+    cs = nf.conjuncts(conj)
+    single = [c for c in cs if nf.classify('not self.subgrader_list', c) == nf.MATCH]
+    notlist = [c for c in cs if nf.classify('not isinstance(_X, ListGrader)', c) == nf.MATCH]
+    if not single or not notlist:
+        return None
+    extras = [c for c in cs if c is not single[0] and c is not notlist[0]]
+    if not extras:
+        return nf.MATCH
+    return ('DIFF', 'the requirement is folded into a narrower test and now fires only when additionally `%s`: a grouped ListGrader whose '
+                    'single subgrader is not a ListGrader is accepted whenever that extra condition fails (e.g. every group has one input)'
+            % ' and '.join(unparse(c) for c in extras))
+
+
 class Cross(object):
     def __init__(self, key, func, pattern, what, classes=('ConfigError',), loop=None, inline=4, handler=None, optional=False,
-                 recognise=None, bypass_ok=()):
+                 recognise=None, bypass_ok=(), noloop=()):
+        self.noloop = list(noloop)          # spellings of the whole rule as one condition (no enclosing data loop needed)
         self.bypass_ok = tuple(bypass_ok)   # reviewed early returns (guard patterns) that may precede the check
         self.recognise = recognise  # optional callable(fi, conj) -> MATCH | ('DIFF', text) | None for forms outside the patterns
         self.optional = optional  # a reviewed raise site that is not a cross-option rule of the property (accounted for only)
@@ -984,14 +1001,20 @@ CROSS_RULES = [
           'groups must be numbered 1..n without gaps', recognise=_contiguity_form),
     Cross('grouping needs list-capable subgrader', LGQ + 'validate_grouping',
           "not self.subgrader_list and not isinstance(self.config['subgraders'], ListGrader)",
-          'a single subgrader of a grouped ListGrader must be a ListGrader'),
+          'a single subgrader of a grouped ListGrader must be a ListGrader', recognise=_single_subgrader_form),
     Cross('unordered groups equal size', LGQ + 'validate_grouping', "not self.config['ordered'] and len(_G) != len(self.grouping[0])",
-          'unordered groups must have equal sizes', loop='self.grouping'),
+          'unordered groups must have equal sizes', loop='self.grouping', noloop=
+          ["not self.config['ordered'] and len(set([len(_G) for _G in self.grouping])) > 1",
+           "not self.config['ordered'] and len(set((len(_G) for _G in self.grouping))) > 1",
+           "not self.config['ordered'] and len({len(_G) for _G in self.grouping}) > 1",
+           "not self.config['ordered'] and len(set([len(_G) for _G in self.grouping])) != 1"]),
     Cross('groups/subgraders count', LGQ + 'validate_grouping',
-          "self.subgrader_list and len(self.grouping) != len(self.config['subgraders'])",
+          ["self.subgrader_list and len(self.grouping) != len(self.config['subgraders'])",
+           "self.subgrader_list and len(self.config['subgraders']) != len([len(_G) for _G in self.grouping])"],
           'number of groups must equal the number of subgraders'),
     Cross('multi-item group needs ListGrader', LGQ + 'validate_grouping',
-          "self.subgrader_list and len(_G) > 1 and not isinstance(self.config['subgraders'][_I], ListGrader)",
+          ["self.subgrader_list and len(_G) > 1 and not isinstance(self.config['subgraders'][_I], ListGrader)",
+           "self.subgrader_list and _N > 1 and not isinstance(_SG, ListGrader)", "_N > 1 and not isinstance(_SG, ListGrader)"],
           'a group with several inputs must be graded by a ListGrader'),
     Cross('nested delimiters', SLQ + '__init__',
           ["isinstance(_S, SingleListGrader) and isinstance(self.config['subgrader'], SingleListGrader) and _S.config['delimiter'] in _D",
@@ -1455,9 +1478,16 @@ def d5_cross(ctx, idx, fam):
                     for gs, loops in alts:
                         if not gs:
                             continue
-                        if c.loop is not None and not any(nf.classify(c.loop, it) == nf.MATCH for it in loops):
+                        in_loop = c.loop is None or any(nf.classify(c.loop, it) == nf.MATCH for it in loops)
+                        if not in_loop and not c.noloop:
                             continue
                         conj = gs[0] if len(gs) == 1 else ast.BoolOp(op=ast.And(), values=list(gs))
+                        if not in_loop:
+                            flat = lib.inline_locals(conj, owner.node, depth=c.inline or 4)
+                            if nf.classify(list(c.noloop), flat) == nf.MATCH:
+                                exact.append((owner, rs, flat, key))
+                                break
+                            continue
                         if c.inline:
                             plain = lib.inline_locals(conj, owner.node, depth=c.inline)
                             res = nf.classify(list(c.patterns), plain)
@@ -1619,21 +1649,63 @@ def d5_cross(ctx, idx, fam):
         # warn_if_override: one call per key, against the right defaults table; collisions over variables/user_constants
         vm = idx.func('mitxgraders.helpers.math_helpers.MathMixin.validate_math_config')
         vcfg = cfg_of(vm.node)
+        mixin = idx.cls('mitxgraders.helpers.math_helpers.MathMixin')
+
+        def key_list(expr):
+            """Literal list of strings denoted by expr (a display, a local bound once, a class / module constant) or None."""
+            e = lib.inline_locals(expr, vm.node)
+            try:
+                t = fam.ev.eval(e, tables.Scope(vm.module, self_cls=mixin, owner=mixin))
+            except tables.Unsupported:
+                return None
+            v = tables.term_value(t)
+            if tables.is_literal(v) and isinstance(v, (list, tuple)) and all(isinstance(x, str) for x in v):
+                return list(v)
+            return None
+
         calls = lib.calls_named(vm.node, 'warn_if_override')
         seen = {}
+        opaque_calls = []
         for c in calls:
-            if len(c.args) == 3 and isinstance(c.args[1], ast.Constant):
-                seen[c.args[1].value] = c
+            if len(c.args) != 3:
+                opaque_calls.append(c)
+                continue
+            k = c.args[1]
+            if isinstance(k, ast.Constant):
+                seen[k.value] = c
+                continue
+            # `for key in <literal list of option names>: warn_if_override(self.config, key, defaults)`
+            loop = next((a_ for a_ in ancestors(c) if isinstance(a_, ast.For)), None)
+            if isinstance(k, ast.Name) and loop is not None and isinstance(loop.target, ast.Name) and loop.target.id == k.id:
+                ks = key_list(loop.iter)
+                if ks is not None:
+                    for kk in ks:
+                        seen.setdefault(kk, c)
+                    continue
+            opaque_calls.append(c)
         for key, defaults in sorted(WARN_KEYS.items()):
             construct = "validate_math_config: warn_if_override('%s')" % key
             c = seen.get(key)
             if c is None:
-                _absent(r, idx, vm, construct, "the override check for '%s' is gone: an author can silently shadow a default %s"
-                            % (key, 'function' if defaults.endswith('functions') else 'constant'), vm.loc,
-                            expected="warn_if_override(self.config, '%s', self.%s)" % (key, defaults))
+                if opaque_calls:
+                    r.undecided(construct, 'a call of warn_if_override with a key that is not a literal (`%s`) was not resolved'
+                                % short(opaque_calls[0]), lib.loc(vm, opaque_calls[0]))
+                    continue
+                listed = sorted(seen)
+                _absent(r, idx, vm, construct, "the override check for '%s' is gone (checked keys: %s): an author can silently shadow a "
+                        "default %s with an entry of '%s'" % (key, listed, 'function' if defaults.endswith('functions') else 'constant', key),
+                        vm.loc, expected="warn_if_override(self.config, '%s', self.%s)" % (key, defaults))
                 continue
             ok = nf.classify('self.config', c.args[0]) == nf.MATCH and nf.classify('self.' + defaults, c.args[2]) == nf.MATCH
-            reach = vcfg.must_pass([vcfg.entry], lib.cfg_nodes_for(vcfg, c), exits='return')
+            anchor_nodes = lib.cfg_nodes_for(vcfg, c)
+            loop = next((a_ for a_ in ancestors(c) if isinstance(a_, ast.For)), None)
+            if loop is not None and not isinstance(c.args[1], ast.Constant) and key_list(loop.iter):
+                # a loop over a non-empty literal list runs its body: it is enough that the loop itself is always reached
+                # and that the call is not skipped inside the body
+                body_ok = not any(isinstance(a_, (ast.If, ast.Try)) for a_ in ancestors(c) if a_ is not loop
+                                  and any(a_ is x for x in ast.walk(loop))) and not lib.loop_has_early_exit(loop)
+                anchor_nodes = vcfg.nodes_of(loop) if body_ok else anchor_nodes
+            reach = vcfg.must_pass([vcfg.entry], anchor_nodes, exits='return')
             r.check(ok and reach, construct, 'against self.%s, on every path' % defaults,
                     "the override check for '%s' %s" % (key, 'is skipped on some path' if ok else 'compares with `%s` instead of self.%s'
                                                           % (short(c.args[2]), defaults)), lib.loc(vm, c),
@@ -1641,11 +1713,15 @@ def d5_cross(ctx, idx, fam):
         cols = lib.calls_named(vm.node, 'validate_no_collisions')
         if cols:
             keys = lib.get_kw(cols[0], 'keys', 1)
-            val = nf.const_value(keys)
-            r.check(isinstance(val, (list, tuple)) and {'variables', 'user_constants'} <= set(val),
-                    'validate_math_config: validate_no_collisions keys', "covers 'variables' and 'user_constants'",
-                    'the collision check no longer covers both variables and user_constants (keys=%s)' % short(keys),
-                    lib.loc(vm, cols[0]), expected="keys=['variables', 'user_constants']", found=short(keys))
+            val = key_list(keys) if keys is not None else None
+            if val is None:
+                r.undecided('validate_math_config: validate_no_collisions keys', 'keys not resolved to a literal list: %s' % short(keys),
+                            lib.loc(vm, cols[0]))
+            else:
+                r.check({'variables', 'user_constants'} <= set(val),
+                        'validate_math_config: validate_no_collisions keys', "covers 'variables' and 'user_constants'",
+                        'the collision check no longer covers both variables and user_constants (keys=%s)' % val,
+                        lib.loc(vm, cols[0]), expected="keys=['variables', 'user_constants']", found=repr(val))
         # sample_from is re-validated against the declared variables (orphaned entries are rejected by the closed schema)
         stores = [s for s in walk_own(vm.node) if isinstance(s, ast.Assign) and len(s.targets) == 1
                   and nf.config_key(s.targets[0]) == 'sample_from']
@@ -2830,6 +2906,10 @@ MUTANTS = [
     Mutant('numericalgrader-shares-default-comparer', FGF, "    # Default comparer for NumericalGrader (independent of FormulaGrader)\n    default_comparer = staticmethod(equality_comparer)\n", "", 'D4'),
     Mutant('default-values-not-per-class', BASE, "        self.default_values = None\n        super(DefaultValuesMeta, self).__init__(name, bases, attrs)", "        super(DefaultValuesMeta, self).__init__(name, bases, attrs)", 'D4'),
     Mutant('seeded-C12h-square-shape-accepted', MSAM, "        Required('shape', default=None): None,\n", "", 'D6'),
+    Mutant('seeded-C20i-numbered-vars-dropped-from-override-check', MH, "        warn_if_override(self.config, 'variables', self.default_variables)\n        warn_if_override(self.config, 'numbered_vars', self.default_variables)\n        warn_if_override(self.config, 'user_constants', self.default_variables)\n        warn_if_override(self.config, 'user_functions', self.default_functions)\n        \n        validate_no_collisions(self.config, keys=['variables', 'user_constants'])\n",
+           "        name_keys = ['variables', 'user_constants']\n        for key in name_keys:\n            warn_if_override(self.config, key, self.default_variables)\n        warn_if_override(self.config, 'user_functions', self.default_functions)\n        validate_no_collisions(self.config, keys=name_keys)\n", 'D5'),
+    Mutant('seeded-C20j-single-subgrader-check-only-for-multi-input-groups', LG, "        if not self.subgrader_list and not isinstance(self.config['subgraders'], ListGrader):\n            msg = \"A ListGrader with groupings must have a ListGrader subgrader \" + \\\n                  \"or a list of subgraders\"\n            raise ConfigError(msg)\n",
+           "        for group in self.grouping:\n            if len(group) > 1 and not self.subgrader_list and not isinstance(self.config['subgraders'], ListGrader):\n                raise ConfigError(\"A ListGrader with groupings must have a ListGrader subgrader or a list of subgraders\")\n", 'D5'),
     Mutant('whitelist-blacklist-or', MH, "    if blacklist and whitelist:\n        raise ConfigError", "    if blacklist or whitelist:\n        raise ConfigError", 'D5'),
     Mutant('unordered-check-removed', LG, "            if not self.config['ordered']:\n                raise ConfigError('Cannot use unordered lists with multiple graders')\n", "", 'D5'),
     Mutant('contiguity-unreachable', LG, "        if not group_nums == set(range(1, max(group_nums) + 1)):", "        if False:", 'D5'),
@@ -2966,6 +3046,10 @@ BENIGN = [
            "    def func(config_input):\n        # Wrap an individual given_type in a list\n        if not isinstance(config_input, list):\n            config_input = [config_input]\n        # Apply the schema\n        if validator:\n            schema = Schema(All([given_type], Length(min=1), [validator]))\n        else:\n            schema = Schema(All([given_type], Length(min=1)))\n        return schema(config_input)",
            "    if validator:\n        schema = Schema(All([given_type], Length(min=1), [validator]))\n    else:\n        schema = Schema(All([given_type], Length(min=1)))\n\n    def func(config_input):\n        # Wrap an individual given_type in a list\n        if not isinstance(config_input, list):\n            config_input = [config_input]\n        return schema(config_input)"),
     Benign('interval-ordering-in-shared-base', SAM, "class RealInterval(ScalarSamplingSet):", "class _OrderedRange(ScalarSamplingSet):\n    def describe(self):\n        return repr(self.config)\n\nclass RealInterval(_OrderedRange):"),
+    Benign('C20i-corrected-override-checks-by-loop', MH, "        warn_if_override(self.config, 'variables', self.default_variables)\n        warn_if_override(self.config, 'numbered_vars', self.default_variables)\n        warn_if_override(self.config, 'user_constants', self.default_variables)\n        warn_if_override(self.config, 'user_functions', self.default_functions)\n        \n        validate_no_collisions(self.config, keys=['variables', 'user_constants'])\n",
+           "        collision_keys = ['variables', 'user_constants']\n        for key in ['variables', 'numbered_vars', 'user_constants']:\n            warn_if_override(self.config, key, self.default_variables)\n        warn_if_override(self.config, 'user_functions', self.default_functions)\n        validate_no_collisions(self.config, keys=collision_keys)\n"),
+    Benign('C20j-corrected-single-subgrader-check-per-group', LG, "        if not self.subgrader_list and not isinstance(self.config['subgraders'], ListGrader):\n            msg = \"A ListGrader with groupings must have a ListGrader subgrader \" + \\\n                  \"or a list of subgraders\"\n            raise ConfigError(msg)\n",
+           "        for group in self.grouping:\n            if not self.subgrader_list and not isinstance(self.config['subgraders'], ListGrader):\n                raise ConfigError(\"A ListGrader with groupings must have a ListGrader subgrader or a list of subgraders\")\n"),
     Benign('log-in-init', BASE, "        # Validate the configuration\n        self.config = self.validate_config(use_config)",
            "        _n = len(use_config) if isinstance(use_config, dict) else 0\n        self.config = self.validate_config(use_config)"),
 ]
